@@ -38,6 +38,12 @@
  *   topen <0 ro|1 rw> | tclose | tsnap
  *   copyatt <dir> <srcvarid|-1> <name> <dstvarid|-1>   ncmpi_copy_att; dir 0: template -> main file, 1: main -> template
  *   tgetatt <varid|-1> <name>          length and text of an attribute of the template
+ *   copyatt dir 2: within the main file (srcvar -> dstvar)
+ *   tmakev (<nctype>:<val>)*           template (CDF-5) with scalar variables tv<i> of these types, each with a 1-element
+ *                                      _FillValue <val> of its own type; enddef; close
+ *   fvput <varid> <xtype> <nelems> <val> <typed 0|1>   _FillValue through ncmpi_put_att / ncmpi_put_att_longlong
+ *   attany <varid> <name> <xtype> <nelems> <val>       any attribute through ncmpi_put_att
+ *   renatt <varid> <old> <new> | delatt <varid> <name>
  */
 #include <stdio.h>
 #include <stdlib.h>
@@ -415,7 +421,8 @@ int main(int argc, char **argv)
         }
         else if (!strcmp(op, "copyatt")) {
             int dir = atoi(tok[1]), sv = atoi(tok[2]), dv = atoi(tok[4]);
-            if (dir == 0) err = ncmpi_copy_att(tncid, sv < 0 ? NC_GLOBAL : sv, tok[3], ncid, dv < 0 ? NC_GLOBAL : dv);
+            if (dir == 2) err = ncmpi_copy_att(ncid, sv < 0 ? NC_GLOBAL : sv, tok[3], ncid, dv < 0 ? NC_GLOBAL : dv);
+            else if (dir == 0) err = ncmpi_copy_att(tncid, sv < 0 ? NC_GLOBAL : sv, tok[3], ncid, dv < 0 ? NC_GLOBAL : dv);
             else          err = ncmpi_copy_att(ncid, sv < 0 ? NC_GLOBAL : sv, tok[3], tncid, dv < 0 ? NC_GLOBAL : dv);
             fprintf(out, "copyatt %d\n", err);
         }
@@ -426,6 +433,47 @@ int main(int argc, char **argv)
             if (err == NC_NOERR) err = ncmpi_get_att_text(tncid, v < 0 ? NC_GLOBAL : v, tok[2], val);
             fprintf(out, "tgetatt %d %lld %s\n", err, (long long)n, n > 0 ? val : "-");
             free(val);
+        }
+        else if (!strcmp(op, "tmakev")) {
+            int tid = -1, e2;
+            err = ncmpi_create(MPI_COMM_WORLD, tpath, NC_CLOBBER | NC_64BIT_DATA, MPI_INFO_NULL, &tid);
+            for (i = 1; i < ntok && err == NC_NOERR; i++) {
+                char nm[32], *colon = strchr(tok[i], ':'); int ty, vid = -1; unsigned char fv[8];
+                if (!colon) continue;
+                ty = atoi(tok[i]);
+                snprintf(nm, sizeof(nm), "tv%d", i - 1);
+                err = ncmpi_def_var(tid, nm, (nc_type)ty, 0, NULL, &vid);
+                store(ty, fv, atoll(colon + 1));
+                if (err == NC_NOERR) err = ncmpi_put_att(tid, vid, "_FillValue", (nc_type)ty, 1, fv);
+            }
+            if (tid >= 0) { e2 = ncmpi_enddef(tid); if (err == NC_NOERR) err = e2; e2 = ncmpi_close(tid); if (err == NC_NOERR) err = e2; }
+            fprintf(out, "tmakev %d\n", err);
+        }
+        else if (!strcmp(op, "fvput") || !strcmp(op, "attany")) {
+            int isfv = !strcmp(op, "fvput");
+            int vid = atoi(tok[1]);
+            const char *nm = isfv ? "_FillValue" : tok[2];
+            int b = isfv ? 2 : 3;
+            int ty = atoi(tok[b]), n = atoi(tok[b + 1]), typed = isfv ? atoi(tok[b + 3]) : 0;
+            long long val = atoll(tok[b + 2]);
+            if (typed) {
+                long long arr[4];
+                for (i = 0; i < n && i < 4; i++) arr[i] = val;
+                err = ncmpi_put_att_longlong(ncid, vid, nm, (nc_type)ty, (MPI_Offset)n, arr);
+            } else {
+                unsigned char buf[32];
+                for (i = 0; i < n && i < 4; i++) store(ty, buf + i * xsz_of(ty), val);
+                err = ncmpi_put_att(ncid, vid, nm, (nc_type)ty, (MPI_Offset)n, buf);
+            }
+            fprintf(out, "%s %d\n", op, err);
+        }
+        else if (!strcmp(op, "renatt")) {
+            err = ncmpi_rename_att(ncid, atoi(tok[1]), tok[2], tok[3]);
+            fprintf(out, "renatt %d\n", err);
+        }
+        else if (!strcmp(op, "delatt")) {
+            err = ncmpi_del_att(ncid, atoi(tok[1]), tok[2]);
+            fprintf(out, "delatt %d\n", err);
         }
         else if (!strcmp(op, "moveunit")) {
 #ifdef ENDDEF_SRC
